@@ -250,3 +250,12 @@ B("c05-graph-reward-priority", "C05", "C05.R4", (L + "graph_coloring/env.py", "G
 B("c09-lbf-eaten-blocks", "C09", "C09.R3", (R + "lbf/utils.py", "simulate_agent_movement", "expr", "jnp.all(new_position == food_items.position, axis=1) & ~food_items.eaten", "jnp.all(new_position == food_items.position, axis=1)"))
 B("c12-lbf-grid-eaten-food", "C12", "C12.R2", (R + "lbf/observer.py", "GridObserver.make_agents_view", "expr", "food.level * ~food.eaten", "food.level"))
 B("c12-binpack-rank-unmasked", "C12", "C12.R2", (P + "bin_pack/env.py", "BinPack._get_set_of_largest_ems", "expr", "ems.volume() * ems_mask", "ems.volume()"))
+B("c11-multicvrp-horizon", "C11", "C11.R6", (R + "multi_cvrp/env.py", "MultiCVRP.step", "expr", "self._num_customers * 2", "self._num_customers * self._num_vehicles"))
+
+# ---------------------------------------------------------------- shape rules (C01.R8, C02.R5, C13.R6)
+B("c13-tetris-reset-shape", "C13", "C13.R6", (P + "tetris/env.py", "Tetris.reset", "kwarg", "full_lines", "jnp.full(self.num_rows + 3, False)", "jnp.full((self.padded_num_cols,), False)"))
+B("c02-tetris-reset-shape", "C02", "C02.R5", (P + "tetris/env.py", "Tetris.reset", "kwarg", "full_lines", "jnp.full(self.num_rows + 3, False)", "jnp.full((self.padded_num_cols,), False)"))
+B("c01-maze-walls-transposed-spec", "C01", "C01.R8", (R + "maze/env.py", "Maze.observation_spec", "expr", "(self.num_rows, self.num_cols)", "(self.num_cols, self.num_rows)"))
+B("c01-tsp-trajectory-shape", "C01", "C01.R8", (R + "tsp/env.py", "TSP.observation_spec", "expr", "(self.num_cities,)", "(self.num_cities + 1,)", 2))
+B("c01-snake-planes-4", "C01", "C01.R8", (R + "snake/env.py", "Snake.observation_spec", "expr", "(self.num_rows, self.num_cols, 5)", "(self.num_rows, self.num_cols, 4)"))
+T("c01-twin-shape-tuple-attr", "C01", (R + "snake/env.py", "Snake.observation_spec", "expr", "(self.num_rows, self.num_cols, 5)", "(*self.board_shape, 5)"))
